@@ -15,10 +15,13 @@ FILES = ['src/succinct/bit_vector.rs', 'src/succinct/rank_select/mod.rs', 'src/s
 
 def run(ctx):
     fx = ctx.facts("default")
-    fixtures.run(ctx, ['taint', 'shrink', 'tailmask'])
+    fixtures.run(ctx, ['taint', 'shrink', 'tailmask', 'rawwords'])
     # rank/select builders popcount whole words: BitVector must clear what it vacates
     shrink.run(ctx, fx, 'src/succinct/bit_vector.rs', 'succinct::bit_vector::BitVector', 'len', 'blocks')
     ctx.floor('R-SHRINK.methods', 2)
+    # the same invariant at the other door: raw words supplied by a caller enter a structure only behind a tail mask
+    shrink.raw_words_masked(ctx, fx, [f for f in fx.files() if f.startswith('src/succinct/')])
+    ctx.floor('R-RAWWORDS.constructors', 1)
     # the valid bits of the last word: (1 << (n % 64)) - 1 is only right for the word at n / 64
     tailmask.run(ctx, fx, FILES)
     ctx.floor('R-TAILMASK.masks', 6)
@@ -33,7 +36,9 @@ def run(ctx):
         explanation="refusal form of R-GUARD: for every select1/select0 (incl. accelerated variants) the rank parameter must be "
                     "compared with a count-derived value on an edge that cannot reach a successful return, or be forwarded to a "
                     "callee checked the same way; index-like parameters of all public/trait functions of the files must be "
-                    "guarded before get_unchecked / pointer arithmetic.",
+                    "guarded before get_unchecked / pointer arithmetic. R-RAWWORDS: a public constructor under src/succinct that takes a "
+                    "Vec<u64> of raw words and a bit count moves the vector on (into a callee or the built value) only if it or the "
+                    "receiving callee clears bits of a stored word.",
         trusted_base=["rustc nightly MIR", "zfacts", "rules/refusal.py", "rules/taint.py", "rules/shrink.py", "rules/tailmask.py"],
         rule_text="obligation = (accessor, index-like parameter) | unchecked sink with a parameter-derived operand",
     )
